@@ -25,7 +25,8 @@ Connection level (what production runs):
 * `discard_leaves_store`, `execabort_leaves_store`, `watchfail_leaves_store` — **full**, under
   every schedule: the store after = the store with the other clients' commands only.
 * `watch_detects_change_partial` — if the GET-visible value of a watched key differs from the
-  snapshot, EXEC answers nil and applies nothing (any backend);
+  snapshot, EXEC answers nil and applies nothing (any backend); `watch_txn_detects_change_partial`
+  — the same as a trace `WATCH … MULTI … EXEC` with other clients' commands between the inputs;
   `watch_detects_change_strings_partial` — on the concrete store that covers every change in which
   the key is a string or missing before or after.  The full statement
   `C05_watch_detects_change` (all key types) is REFUTED: `watch_nonstring_counterexample`.
@@ -429,6 +430,116 @@ theorem watch_detects_change_partial (B : Backend σ κ γ ρ) (sched : List (Li
   rw [watchfail_leaves_store B sched t s hin herr hf, noInterleaving_flatten hq]
   rfl
 
+
+/-! ### WATCH … MULTI … EXEC as a trace, with the other clients' commands between the inputs -/
+
+/-- an event seen by the store: an input of the modelled connection (with the other clients'
+    schedule during it) or a command of another client between two inputs -/
+inductive Event (κ γ : Type) where
+  | inp (i : Input κ γ) (sc : List (List γ))
+  | other (c : γ)
+
+def runE (B : Backend σ κ γ ρ) :
+    ConnTxn κ γ ρ → σ → List (Event κ γ) → ConnTxn κ γ ρ × σ
+  | t, s, [] => (t, s)
+  | t, s, .inp i sc :: rest => runE B (step B sc t s i).1 (step B sc t s i).2.1 rest
+  | t, s, .other c :: rest => runE B t (B.exec s c).1 rest
+
+/-- events that keep the watch list while the connection is outside MULTI: anything but MULTI
+    and UNWATCH (EXEC / DISCARD outside MULTI are errors and change nothing) -/
+def keepsOutside : Event κ γ → Bool
+  | .inp .multi _ => false
+  | .inp .unwatch _ => false
+  | _ => true
+
+/-- events that keep the transaction open: anything but EXEC and DISCARD -/
+def keepsInside : Event κ γ → Bool
+  | .inp i _ => !endsTxn i
+  | .other _ => true
+
+theorem runE_outside (B : Backend σ κ γ ρ) (p : κ × ρ) (evs : List (Event κ γ)) :
+    ∀ (t : ConnTxn κ γ ρ) (s : σ), t.inTxn = false → p ∈ t.watched →
+      (∀ e ∈ evs, keepsOutside e = true) →
+      (runE B t s evs).1.inTxn = false ∧ p ∈ (runE B t s evs).1.watched := by
+  induction evs with
+  | nil => intro t s h hp _; exact ⟨h, hp⟩
+  | cons e rest ih =>
+    intro t s hout hp hall
+    have he := hall e (by simp)
+    have hr := fun x hx => hall x (List.mem_cons_of_mem e hx)
+    cases e with
+    | other c => exact ih t _ hout hp hr
+    | inp i sc =>
+      simp only [runE]
+      apply ih _ _ _ _ hr
+      · cases i <;> simp_all [step, keepsOutside]
+      · cases i <;> simp_all [step, keepsOutside]
+
+theorem runE_inside (B : Backend σ κ γ ρ) (p : κ × ρ) (evs : List (Event κ γ)) :
+    ∀ (t : ConnTxn κ γ ρ) (s : σ), t.inTxn = true → p ∈ t.watched →
+      (∀ e ∈ evs, keepsInside e = true) →
+      (runE B t s evs).1.inTxn = true ∧ p ∈ (runE B t s evs).1.watched := by
+  induction evs with
+  | nil => intro t s h hp _; exact ⟨h, hp⟩
+  | cons e rest ih =>
+    intro t s hin hp hall
+    have he := hall e (by simp)
+    have hr := fun x hx => hall x (List.mem_cons_of_mem e hx)
+    cases e with
+    | other c => exact ih t _ hin hp hr
+    | inp i sc =>
+      simp only [runE]
+      have hi : endsTxn i = false := by simpa [keepsInside] using he
+      obtain ⟨_, h2, h3, _⟩ := step_body B sc t s i hin hi
+      exact ih _ _ h2 (by rw [h3]; exact hp) hr
+
+theorem runE_append (B : Backend σ κ γ ρ) (a b : List (Event κ γ)) :
+    ∀ (t : ConnTxn κ γ ρ) (s : σ),
+      runE B t s (a ++ b) = runE B (runE B t s a).1 (runE B t s a).2 b := by
+  induction a with
+  | nil => intro t s; rfl
+  | cons e rest ih => intro t s; cases e <;> simp [runE, ih]
+
+/-- `WATCH … k …` at store `s0`; then anything but MULTI/UNWATCH, interleaved with any commands of
+    other clients; `MULTI`; then any body, again interleaved with other clients; `EXEC` with
+    nobody interfering during it: if GET of `k` now answers differently than at WATCH time, EXEC
+    applies nothing and answers nil (or EXECABORT when the body contained a refused input) -/
+theorem watch_txn_detects_change_partial (B : Backend σ κ γ ρ) (t : ConnTxn κ γ ρ) (s0 : σ)
+    (ks : List κ) (k : κ) (mid body : List (Event κ γ)) (sc sc' sched : List (List γ))
+    (hout : t.inTxn = false) (hk : k ∈ ks)
+    (hmid : ∀ e ∈ mid, keepsOutside e = true) (hbody : ∀ e ∈ body, keepsInside e = true)
+    (hq : NoInterleaving sched) :
+    let r := runE B t s0 (.inp (.watch ks) sc :: mid ++ [.inp .multi sc'] ++ body)
+    B.getReply r.2 k ≠ B.getReply s0 k →
+    (step B sched r.1 r.2 .exec).2.1 = r.2 ∧
+    ((step B sched r.1 r.2 .exec).2.2 = .nil ∨ (step B sched r.1 r.2 .exec).2.2 = .err .execAbort) := by
+  intro r hd
+  have hr : r = runE B t s0 (.inp (.watch ks) sc :: mid ++ [.inp .multi sc'] ++ body) := rfl
+  rw [List.cons_append, List.cons_append] at hr
+  simp only [runE] at hr
+  rw [watch_snapshot_is_get B sc t s0 ks hout, List.append_assoc, runE_append] at hr
+  have hp0 : (k, B.getReply s0 k) ∈
+      ({ t with watched := t.watched ++ ks.map (fun k => (k, B.getReply s0 k)) } : ConnTxn κ γ ρ).watched := by
+    simp only [List.mem_append, List.mem_map]
+    exact Or.inr ⟨k, hk, rfl⟩
+  obtain ⟨m1, m2⟩ := runE_outside B (k, B.getReply s0 k) mid
+    { t with watched := t.watched ++ ks.map (fun k => (k, B.getReply s0 k)) } s0 hout hp0 hmid
+  generalize runE B { t with watched := t.watched ++ ks.map (fun k => (k, B.getReply s0 k)) } s0 mid = rm at hr m1 m2
+  simp only [List.cons_append, List.nil_append, runE] at hr
+  have hm : step B sc' rm.1 rm.2 .multi =
+      ({ rm.1 with inTxn := true, queue := [], errors := false }, rm.2, .ok) := by simp [step, m1]
+  rw [hm] at hr
+  obtain ⟨b1, b2⟩ := runE_inside B (k, B.getReply s0 k) body
+    { rm.1 with inTxn := true, queue := [], errors := false } rm.2 rfl m2 hbody
+  rw [← hr] at b1 b2
+  cases herr : r.1.errors with
+  | true =>
+    rw [execabort_leaves_store B sched r.1 r.2 b1 herr, noInterleaving_flatten hq]
+    exact ⟨rfl, Or.inr rfl⟩
+  | false =>
+    rw [watch_detects_change_partial B sched r.1 r.2 k _ b1 herr hq b2 hd]
+    exact ⟨rfl, Or.inl rfl⟩
+
 end
 
 /-- the key is a string or missing -/
@@ -816,6 +927,17 @@ example :
     step KV.backend [] t [] .exec = (ConnTxn.idle, [], .nil) ∧
     step KV.backend [] t [(1, .list [[48]])] .exec = (ConnTxn.idle, [(1, .list [[48]])], .nil) ∧
     notList [(1, .str [48])] 1 = true := by decide
+
+/-- `watch_txn_detects_change_partial`: WATCH k; other client SET k; own GET; MULTI; SET x;
+    other client APPEND k; EXEC → nil, nothing applied -/
+example :
+    let mid : List (Event Nat KV.Cmd) := [.other (.set 1 [49]), .inp (.cmd (.get 1)) []]
+    let body : List (Event Nat KV.Cmd) := [.inp (.cmd (.set 2 [50])) [], .other (.append 1 [50])]
+    let r := runE KV.backend ConnTxn.idle [(1, .str [48])]
+      (.inp (.watch [1]) [] :: mid ++ [.inp .multi []] ++ body)
+    (∀ e ∈ mid, keepsOutside e = true) ∧ (∀ e ∈ body, keepsInside e = true) ∧
+    KV.backend.getReply r.2 1 ≠ KV.backend.getReply [(1, .str [48])] 1 ∧
+    step KV.backend [] r.1 r.2 .exec = (ConnTxn.idle, [(1, .str [49, 50])], .nil) := by decide
 
 /-- `execabort_leaves_store` / `watchfail_leaves_store` under a NON-empty schedule: the other
     client's write is there, the transaction's is not -/
